@@ -427,8 +427,16 @@ func (rn *runner) runCase(c caseSpec, warmed func()) {
 		rep.Sample(map[string]any{"edit_unformattable": err.Error()})
 		return
 	}
+	crlf := c.Idx%6 == 5
 	for n, src := range ed.Files {
+		if crlf {
+			// an editor that saves with CRLF line endings (legal Go source: the scanner drops \r)
+			src = strings.ReplaceAll(src, "\n", "\r\n")
+		}
 		os.WriteFile(filepath.Join(st.resDir, n), []byte(src), 0o644)
+	}
+	if crlf {
+		rep.Count("cases_with_crlf_resolver_files", 1)
 	}
 	ok, bout, to := rn.goBuild(st.dir)
 	if warmed != nil {
